@@ -176,21 +176,64 @@ class World:
             self.issued.setdefault(chal["nonce"], (agent, t_us))
         return chal, obs
 
-    def env_term(self, method, path, query, agent, t_us):
+    def env_prefix(self):
         amap = "[" + ";".join(
             "(%s, [%s])" % (slit(rlm), ";".join(
                 "(%s, %s)" % (slit(u), slit(h)) for u, h in users.items()))
             for rlm, users in self.amap.items()) + "]"
         req = "None" if self.required is None else \
             "(Some %s)" % slit(self.required)
-        return "(mk_env %s %s %s %s %s %s %s %s %s %s %s %s %s)" % (
+        return "mk_env %s %s %s %s %s %s %s" % (
             slit(self.alg), slit(self.qop or ""), optz(self.timeout), amap,
-            slit(str(self.secret)), slit(self.realm), req, slit(method),
-            slit(lat(path)), slit(query), slit(str(agent)), slit(HOST),
-            zlit(t_us))
+            slit(str(self.secret)), slit(self.realm), req)
+
+    def env_rest(self, method, path, query, agent, t_us):
+        return "%s %s %s %s %s %s" % (
+            slit(method), slit(lat(path)), slit(query), slit(str(agent)),
+            slit(HOST), zlit(t_us))
 
     def htag(self):
         return ord("M") if self.alg.startswith("MD5") else ord("S")
+
+
+class Terms:
+    """shared Coq definitions put in front of every case file: the
+    per-world part of the environment and the correct header of each
+    scenario, from which derived headers are written as splices"""
+    def __init__(self):
+        self.defs = []
+        self.base = None
+
+    def prelude(self):
+        return (IMPORTS + "\nImport ListNotations.\nOpen Scope Z_scope.\n"
+                + "\n".join(self.defs))
+
+    def define(self, prefix, body, typ=None):
+        name = "%s%d" % (prefix, len(self.defs))
+        self.defs.append("Definition %s%s := %s." % (
+            name, " : " + typ if typ else "", body))
+        return name
+
+    def set_base(self, raw):
+        self.base = (self.define("B", slit(raw), "str"), raw)
+
+    def text(self, raw):
+        if self.base:
+            name, base = self.base
+            if raw == base:
+                return name
+            lim = min(len(raw), len(base))
+            pre = 0
+            while pre < lim and raw[pre] == base[pre]:
+                pre += 1
+            suf = 0
+            while suf < lim - pre and raw[-1 - suf] == base[-1 - suf]:
+                suf += 1
+            if pre + suf >= 40:
+                return "(splice %s %d %d %s)" % (
+                    name, pre, len(base) - pre - suf,
+                    slit(raw[pre:len(raw) - suf]))
+        return slit(raw)
 
 
 def observed(obs):
@@ -234,25 +277,25 @@ def mutations(world, fields, ctxd):
     """(label, field list) of every single-field mutation"""
     out = []
     for idx, (name, value, quoted) in enumerate(fields):
-        def put(label, item):
+        def put(label, item, where=""):
             new = [list(f) for f in fields]
             if item is None:
                 del new[idx]
             else:
                 new[idx] = item
-            out.append(("%s:%s" % (label, name), new))
+            out.append(("%s:%s%s" % (label, name, where), new))
         put("drop", None)
         put("empty", [name, "", quoted])
         for pos in sorted({0, len(value) // 2, len(value) - 1}):
-            put("char%d" % pos,
+            put("char",
                 [name, value[:pos] + flip(value[pos]) + value[pos + 1:],
-                 quoted])
+                 quoted], "@%d" % pos)
         put("swap", [name, other_value(world, name, value, ctxd), quoted])
         put("requote", [name, value, not quoted])
     return out
 
 
-def broken_headers(fields, rng):
+def broken_headers(fields, rng, big=20000):
     """syntactically broken variants (label, raw text)"""
     good = serialize(fields)
     out = [("scheme-only", "Digest"), ("scheme-space", "Digest "),
@@ -262,10 +305,10 @@ def broken_headers(fields, rng):
            ("glued-scheme", "Digest" + good[7:]),
            ("comma-less", serialize(fields, sep=" ")),
            ("semicolons", serialize(fields, sep="; ")),
-           ("very-long-tail", good + ", junk=\"" + "a" * 20000 + "\""),
-           ("very-long-word", good + ", " + "b" * 3000),
+           ("very-long-tail", good + ", junk=\"" + "a" * big + "\""),
+           ("very-long-word", good + ", " + "b" * (big // 6)),
            ("very-long-user", serialize(
-               [[n, v if n != "username" else v * 2000, q]
+               [[n, v if n != "username" else v * (big // 8), q]
                 for n, v, q in fields])),
            ("nul", good.replace(", ", ",\x00", 1)),
            ("type-field", good + ', type="Basic"')]
@@ -387,7 +430,7 @@ def ref_parse(text):
 
 LENIENT = re.compile(
     r"""(?<![!#$%&'*+\-.^_`|~0-9A-Za-z])([!#$%&'*+\-.^_`|~0-9A-Za-z]+)"""
-    r"""[ \t]*=[ \t]*(?:"((?:[^"\\]|\\.)*)"|([^\s,"]+))""")
+    r"""[ \t]*=[ \t]*(?:"((?:[^"\\]|\\.)*)"|([^\s,;"]+))""")
 
 
 def lenient_params(text):
@@ -518,7 +561,9 @@ class Oracle:
                 good.append((user, state))
         valid = [u for u, s in good if s == "valid"]
         if valid:
-            return ("run" if strict else "either"), valid[0], False
+            if strict:
+                return "run", valid[0], False
+            return "either", valid[0], None
         if states == {"valid"}:
             return "reject", None, False
         if good and all(s == "expired" for _, s in good) and strict:
@@ -548,7 +593,7 @@ def worlds_for(clock, quick, fake):
     return out
 
 
-def scenarios(world, rng, quick, base_t):
+def scenarios(world, rng, quick, base_t, big=20000):
     """yield (label, method, path, query, agent, header_text, t_us) starting
     from correct headers"""
     hf = world.hf
@@ -642,7 +687,7 @@ def scenarios(world, rng, quick, base_t):
                     yield (label, method, path, query, agent_env,
                            serialize(new), now)
             if variant == 1 or (not quick and tnum == 0):
-                for label, text in broken_headers(fields, rng):
+                for label, text in broken_headers(fields, rng, big):
                     yield ("broken:" + label, method, path, query, agent_env,
                            text, now)
             # nonce age: the same header later
@@ -676,21 +721,27 @@ def run(ctx):
         for name in wsgi.AUTH_DIGEST_ALGORITHMS:
             wsgi.AUTH_DIGEST_ALGORITHMS[name] = fake_hash(
                 "M" if name.startswith("MD5") else "S")
-        cases, pcases, seen = [], [], set()
-        headers_seen = []
+        cases, pcases, seen = [], [], {}
+        terms = Terms()
         for wnum, world in enumerate(worlds_for(clock, ctx.quick, True)):
             tmo = world.timeout or 300
             base_t = ((epoch // tmo) * tmo + (wnum % 3) * tmo // 3) * 10 ** 6 \
                 + 500000
+            wname = terms.define("W", world.env_prefix())
+            big = 20000 if not ctx.quick else (4000 if wnum == 0 else 300)
             for (label, method, path, query, agent, text, t_us) in scenarios(
-                    world, ctx.rng, ctx.quick, base_t):
+                    world, ctx.rng, ctx.quick, base_t, big):
                 raw = None if text is None else lat(text)
                 obs = world.request(method, path, query, agent, raw, t_us)
-                term = "run_gate %d %s %s" % (
-                    world.htag(), world.env_term(method, path, query, agent,
-                                                 t_us),
-                    "None" if raw is None else "(Some %s)" % slit(raw))
+                if label == "correct":
+                    terms.set_base(raw)
+                hterm = None if raw is None else terms.text(raw)
+                term = "run_gate %d (%s %s) %s" % (
+                    world.htag(), wname,
+                    world.env_rest(method, path, query, agent, t_us),
+                    "None" if raw is None else "(Some %s)" % hterm)
                 cases.append((term, observed(obs), {
+                    "kind": "gate",
                     "label": label, "alg": world.alg, "qop": world.qop,
                     "timeout": world.timeout, "realm": world.realm,
                     "required": world.required, "method": method,
@@ -699,10 +750,8 @@ def run(ctx):
                     "t_us": t_us, "impl": observed(obs),
                     "raised": obs["raised"]}))
                 ctx.count("model:" + label.split(":")[0])
-                if raw is not None and raw not in seen and len(raw) < 4000:
-                    seen.add(raw)
-                    headers_seen.append(raw)
-        ctx.correspondence("gate", IMPORTS, cases, lambda p: p)
+                if raw is not None and raw not in seen:
+                    seen[raw] = hterm
         for term, exp, payload in cases:
             ctx.case(("gate", payload["label"], payload["alg"],
                       payload["qop"], payload["authorization"],
@@ -711,34 +760,38 @@ def run(ctx):
 
         # ------------------------- correspondence: tokenizer and unquote
         app = new_app(secret_key="k")
-        texts = headers_seen if not ctx.quick else \
-            ctx.rng.sample(headers_seen, min(len(headers_seen), 900))
-        texts = texts + garbage(ctx.rng, 600 if ctx.quick else 6000)
-        for raw in texts:
+        texts = list(seen)
+        if ctx.quick:
+            texts = ctx.rng.sample(texts, min(len(texts), 500))
+        junk = garbage(ctx.rng, 500 if ctx.quick else 6000)
+        for raw in texts + junk:
             got = Request(environ(headers={"Authorization": raw},
                                   extra={"REQUEST_STARTTIME": 0.0}),
                           app).authorization
             typ = got.pop("type")
             head = raw.strip()
+            hterm = seen.get(raw) or slit(raw)
+            payload = {"kind": "parse", "authorization": raw[:600]}
             if head[:head.find(" ")].isascii():
-                pcases.append(("run_parse %s" % slit(raw), [typ, got], raw))
+                pcases.append(("run_parse %s" % hterm, [typ, got], payload))
             else:
-                pcases.append(("run_parse_fields %s" % slit(raw), got, raw))
-        ctx.correspondence("parse", IMPORTS, pcases, lambda p: p[:600])
+                pcases.append(("run_parse_fields %s" % hterm, got, payload))
         ucases = []
         from urllib.parse import unquote as py_unquote
         pool = ["%", "%4", "%41", "%C3%A9", "%c3", "%A9", "%E2%82%AC", "%e2%82",
                 "%F0%9F%98%80", "%f0%9f", "%ED%A0%80", "%C0%80", "%FF", "a",
-                "/", "?", "\xe9", "€", "%zz", "%%", "%2", "+", "%00",
+                "/", "?", "\xe9", "\u20ac", "%zz", "%%", "%2", "+", "%00",
                 "%F4%90%80%80", "%E0%80%80", "%EF%BF%BD", "%7F", "%80"]
         for _ in range(300 if ctx.quick else 4000):
             text = "".join(ctx.rng.choice(pool)
                            for _ in range(ctx.rng.randint(0, 8)))
             ucases.append(("run_unquote %s" % slit(text), py_unquote(text),
-                           text))
-        ctx.correspondence("unquote", IMPORTS, ucases, lambda p: p)
-        for _, _, raw in pcases + ucases:
-            ctx.case(("parse", raw), True)
+                           {"kind": "unquote", "text": text}))
+        ctx.correspondence("model", terms.prelude(), cases + pcases + ucases,
+                           lambda p: p)
+        for _, _, payload in pcases + ucases:
+            ctx.case((payload["kind"], payload.get("authorization"),
+                      payload.get("text")), True)
         ctx.count("model:parse", len(pcases))
         ctx.count("model:unquote", len(ucases))
 
